@@ -262,6 +262,8 @@ class Interp:
         if isinstance(f, ast.Name) and f.id == "isinstance" and len(e.args) == 2:
             t = self.ev(e.args[1])
             return isinstance(self.ev(e.args[0]), t)
+        if isinstance(f, ast.Name) and f.id == "type" and len(e.args) == 1 and not e.keywords and "type" not in self.env:
+            return type(self.ev(e.args[0]))
         if isinstance(f, ast.Name) and f.id in ("len", "set", "abs", "min", "max", "float", "int", "bool", "tuple", "list", "sorted"):
             fn = {"len": len, "set": set, "abs": abs, "min": min, "max": max, "float": float, "int": int, "bool": bool, "tuple": tuple, "list": list, "sorted": sorted}[f.id]
             return fn(*[self.ev(a) for a in e.args])
@@ -421,3 +423,21 @@ def region_reps(consts: list[float], integer: bool = False, with_nan: bool = Tru
     if with_nan:
         reps.append(math.nan)
     return reps
+
+
+def shadow_hierarchy(repo, base) -> dict[str, type]:
+    """Empty Python classes mirroring the subclass hierarchy below `base` (a ClassInfo), keyed by qualified name: the
+    interpreter's `isinstance`, `type(x) is C`, `issubclass` and `match` class patterns then decide on instances of them exactly
+    as Python decides on the repository's own classes — the hierarchy is read from the source, nothing is imported."""
+    out: dict[str, type] = {}
+
+    def build(c):
+        if c.qual in out:
+            return out[c.qual]
+        bases = tuple(build(b) for b in c.bases if b is not None and repo.is_subclass(b, base)) if c is not base else ()
+        out[c.qual] = type(c.name, bases or (object,), {})
+        return out[c.qual]
+
+    for c in repo.subclasses(base):
+        build(c)
+    return out
